@@ -211,6 +211,22 @@ func checkCase(w *world, mon *lib.Monitor, c scase) (ow, og outcome) {
 	return
 }
 
+// checkAbandon: a client that stops reading and cancels while the handler is inside SendMsg (wrapper only).
+func checkAbandon(w *world, mon *lib.Monitor, c scase) {
+	ow := runCase(w.wrapEP, w.srv, c, true)
+	mon.Eval(c.key(), true, map[string]any{"case": c, "wrapper": ow.text()})
+	mon.Count("abandon")
+	switch {
+	case ow.timedOut || strings.Contains(ow.server, "handler-not-finished"):
+		mon.Violate("C13/"+c.Shape+"/abandoned/handler-did-not-return",
+			"the client stopped reading and cancelled while the handler was inside SendMsg: the handler must be released by the end of the call's context",
+			c, "handler returns", ow.text())
+	case ow.leak > 0:
+		mon.Violate("C13/"+c.Shape+"/abandoned/goroutine-left",
+			"goroutines above the baseline after a call the client abandoned and cancelled", c, "0", fmt.Sprint(ow.leak))
+	}
+}
+
 // checkCopy: the objects the handler received are not the client's objects (and vice versa), and
 // mutating one side's message after the call does not change the other side's.
 func checkCopy(mon *lib.Monitor, c scase, o outcome) {
@@ -398,6 +414,9 @@ func runScripts(f lib.Flags, res *lib.Result, w *world, drv *lib.Driver) {
 		}
 		tieH.Record(c.key(), true, c, model[0], fmt.Sprintf("%v/%v", !ow.helperLeft, !og.helperLeft))
 		tieH.Count(c.Shape)
+	}
+	for _, c := range abandonCases() {
+		checkAbandon(w, mon, c)
 	}
 	runResponseThenError(w, mon)
 	runTrailerAfterAbort(w, mon)
